@@ -402,3 +402,38 @@ Definition import_tstacksecret (old : list (N * tsec)) (s : bytes) : option (lis
     end
   | None => None
   end.
+
+(* ---- TMCG_PublicKey:  pub|name|email|type|m|y|nizk|sig   (sig = everything after the seventh '|') ---- *)
+Record pubkey := { pk_name : bytes; pk_email : bytes; pk_type : bytes; pk_m : Z; pk_y : Z; pk_nizk : bytes; pk_sig : bytes }.
+Definition magic_pub : bytes := [112; 117; 98].
+
+Definition export_pubkey (k : pubkey) : bytes :=
+  magic_pub ++ [bar] ++ pk_name k ++ [bar] ++ pk_email k ++ [bar] ++ pk_type k ++ [bar]
+  ++ encode62 (pk_m k) ++ [bar] ++ encode62 (pk_y k) ++ [bar] ++ pk_nizk k ++ [bar] ++ pk_sig k.
+
+Definition import_pubkey (s : bytes) : option pubkey :=
+  match cm s magic_pub bar with
+  | Some r0 =>
+    match field r0 bar with
+    | Some (name, r1) =>
+      match field r1 bar with
+      | Some (email, r2) =>
+        match field r2 bar with
+        | Some (type, r3) =>
+          match read_fields 2 r3 with
+          | Some ([m; y], r4) =>
+            match field r4 bar with
+            | Some (nizk, sig) =>
+              Some {| pk_name := name; pk_email := email; pk_type := type; pk_m := m; pk_y := y; pk_nizk := nizk; pk_sig := sig |}
+            | None => None
+            end
+          | _ => None
+          end
+        | None => None
+        end
+      | None => None
+      end
+    | None => None
+    end
+  | None => None
+  end.
